@@ -23,21 +23,30 @@ Ev(e) == l <= N /\ Trace[l].ev = e /\ l' = l + 1
 TraceInit == l = 2 /\ TLCSet(1, 1) /\ Trace[1].ev = "reset" /\ diag = {}
 TReset    == Ev("reset") /\ diag' = {}
 
+Units(t) ==
+  [base |-> BaseLen(t.tshi, t.tslo, t.chainnz, t.feenz),
+   est  |-> EstimateUnits(t.actions, t.authmax, t.authmaxc, t.rules, t.sponsorch)]
+
+(* ---- the property, on the real numbers: a broken clause rejects the line (DiagEmpty) *)
 TxDiag(t) ==
-  LET base == BaseLen(t.tshi, t.tslo, t.chainnz, t.feenz)
-      mEst == EstimateUnits(t.actions, t.authmax, t.authmaxc, t.rules, t.sponsorch)
-      mAct == ActualUnits(base, t.actions, t.authlen, t.authc, t.rules, t.balchunks)
-  IN \* ---- the property, on the real numbers
-     {"est<act:" \o DimName(d) : d \in {d \in Dims : t.est[d] < t.act[d]}} \cup
-     (IF t.maxfee >= 0 /\ t.fee >= 0 /\ t.maxfee < t.fee THEN {"maxfee<fee"} ELSE {}) \cup
-     (IF t.maxfee >= 0 /\ t.maxfee # Dot(t.prices, t.est) THEN {"model:maxfee"} ELSE {}) \cup
-     \* ---- the model equals the code on this shape
+  {"est<act:" \o DimName(d) : d \in {d \in Dims : t.est[d] < t.act[d]}} \cup
+  (IF t.maxfee >= 0 /\ t.fee >= 0 /\ t.maxfee < t.fee THEN {"maxfee<fee"} ELSE {}) \cup
+  (IF Len(t.actions) > t.maxactions THEN {"harness:actions>limit"} ELSE {})
+
+(* ---- the model equals the code on this shape.  A difference does NOT reject the line (validation of the property
+   goes on over every row); it is printed as a KF_HIT-style marker "model:<clause>" that checks/C14.py turns into an
+   infrastructure error only when no property clause failed anywhere. *)
+TxDrift(t) ==
+  LET u    == Units(t)
+      mAct == ActualUnits(u.base, t.actions, t.authlen, t.authc, t.rules, t.balchunks)
+  IN (IF t.maxfee >= 0 /\ t.maxfee # Dot(t.prices, t.est) THEN {"model:maxfee"} ELSE {}) \cup
      (IF t.act[1] # t.size THEN {"model:size"} ELSE {}) \cup
      {"model:act-" \o DimName(d) : d \in {d \in Dims : mAct[d] # t.act[d]}} \cup
-     {"model:est-" \o DimName(d) : d \in {d \in Dims : mEst[d] # t.est[d]}} \cup
-     (IF Len(t.actions) > t.maxactions THEN {"harness:actions>limit"} ELSE {})
+     {"model:est-" \o DimName(d) : d \in {d \in Dims : u.est[d] # t.est[d]}}
 
-TTx == Ev("tx") /\ diag' = TxDiag(T)
+TTx == /\ Ev("tx")
+       /\ diag' = TxDiag(T)
+       /\ \A n \in TxDrift(T) : PrintT(<<"KF_HIT", n, l>>)
 
 TraceNext == TReset \/ TTx
 TraceSpec == TraceInit /\ [][TraceNext]_tvars
